@@ -245,6 +245,15 @@ func Scenarios(tier string) []*Scenario {
 	tW1 := threadSpec{u: w1, tree: 0, steps: []step{{kind: "insert", k: f(w1, 1), n: 2}, {kind: "search", k: f(w1, 0)}}}
 	tW2 := threadSpec{u: w2, tree: 1, steps: []step{{kind: "insert", k: f(w2, 1), n: 3}, {kind: "search", k: f(w2, 0)}}}
 	out = append(out, build("private-2/n48up-n48up-prefilled", "two goroutines, private trees, both grow a 48-slot node into a 256-slot node while the pool holds a released 256-slot node", 2, []threadSpec{tPro256, tW1, tW2}))
+	// both goroutines run a bounded range scan (each on its own tree of a different kind) after an earlier scan
+	// on a third tree stopped at its upper bound: anything a scan takes from / returns to shared state is in play
+	rp := hist.ProductTreeU16("S-RANGEPRO", hist.FanSpec{Hold: 6, Present: 2, Absent: 1})
+	tRP := threadSpec{u: rp, prologue: true, steps: []step{{kind: "range", k: rp.Bounds[0], b: rp.Bounds[1]}, {kind: "range", k: rp.Bounds[1], b: rp.Bounds[2]}}}
+	ra := hist.ProductTreeU16("S-RANGEa", hist.FanSpec{Hold: 6, Present: 2, Absent: 1})
+	rb := hist.SharedCompound()
+	tRA := threadSpec{u: ra, tree: 0, steps: []step{{kind: "range", k: ra.Bounds[0], b: ra.Bounds[len(ra.Bounds)-1]}, {kind: "range", k: ra.Bounds[1], b: ra.Bounds[2]}}}
+	tRB := threadSpec{u: rb, tree: 1, steps: []step{{kind: "range", k: rb.Free[0], b: rb.Free[2]}, {kind: "range", k: rb.Free[3], b: rb.Free[1]}}}
+	out = append(out, build("private-2/range-range", "two goroutines, private trees of different kinds, both run bounded range scans after an earlier scan stopped at its upper bound", 2, []threadSpec{tRP, tRA, tRB}))
 	// path split / merge (node4 taken and released) against node4 -> node16 -> node4
 	s1 := hist.NewAlphaUniverse(hist.AlphaSpec{Name: "S-SPLIT", Setup: []string{"abc1", "abc2", "abd"}, Free: []string{"abX", "abc1"}, NoAutoP: true}, "string")
 	s2 := hist.ProductTreeU16("S-N4@4", hist.FanSpec{Hold: 4, Present: 2, Absent: 2})
@@ -274,6 +283,11 @@ func Scenarios(tier string) []*Scenario {
 	l1 := threadSpec{u: long, tree: 0, steps: []step{{kind: "search", k: long.Free[0]}, {kind: "search", k: long.Free[2]}, {kind: "search", k: long.DelExtra[0]}}}
 	l2 := threadSpec{u: long, tree: 0, steps: []step{{kind: "search", k: long.Free[1]}, {kind: "search", k: long.Free[3]}, {kind: "min"}}}
 	out = append(out, build("readers-2/alpha-longkeys", "two goroutines searching one quiescent byte-string tree with 34..71-byte keys", 1, []threadSpec{l1, l2}))
+	// a 256-way node on the leftmost path whose lowest children were deleted before the readers start
+	wide := hist.ProductTreeU8("S-WIDE", hist.FanSpec{Hold: 52, Extra: 3, Present: 2, Absent: 1, Order: 1})
+	wm := threadSpec{u: wide, tree: 0, steps: []step{{kind: "min"}, {kind: "search", k: wide.Free[0]}, {kind: "max"}}}
+	wn := threadSpec{u: wide, tree: 0, steps: []step{{kind: "min"}, {kind: "max"}, {kind: "search", k: wide.Free[1]}}}
+	out = append(out, build("readers-2/uint8-wide", "two goroutines asking one quiescent 256-way tree for its extremes", 1, []threadSpec{wm, wn}))
 	u64 := hist.SharedU64()
 	n1 := threadSpec{u: u64, tree: 0, steps: []step{{kind: "search", k: u64.Free[0]}, {kind: "range", k: u64.Free[0], b: u64.Free[1]}, {kind: "min"}}}
 	n2 := threadSpec{u: u64, tree: 0, steps: []step{{kind: "max"}, {kind: "search", k: u64.DelExtra[0]}, {kind: "topk", n: 1}, {kind: "search", k: u64.Free[1]}}}
